@@ -1257,7 +1257,7 @@ impl Spec {
             }
             for k in 1..=2u8 {
                 let loc = locator_of(k);
-                let r = api.get_appointment(&loc, keys.sign(format!("get appointment {loc}").as_bytes()));
+                let r = api.get_appointment(&loc, keys.sign(format!("get appointment {}", hex::encode(loc.to_vec())).as_bytes()));
                 let usable = self.users.get(&u).map_or(false, |su| self.height < su.expiry);
                 if !usable {
                     if !matches!(&r, Err(e) if e.code == tonic::Code::Unauthenticated) {
